@@ -95,13 +95,29 @@ def process_case(prop, case, stats, open_known):
     except OutOfDomain:
         stats.out_of_domain += 1
         return []
-    stats.evaluations += 1
     h = harness.case_hash(case)
-    stats.distinct.add(h)
     nontrivial, labels = prop.classify(case)
-    if nontrivial:
-        stats.nontrivial.add(h)
+    units = getattr(prop, "sub_units", None)
+    if units is not None:
+        # a case bundles several evaluations (e.g. a batch of index expressions)
+        n = 0
+        for key, unit_nontrivial in units(case):
+            n += 1
+            uh = harness.case_hash(key)
+            stats.distinct.add(uh)
+            if unit_nontrivial:
+                stats.nontrivial.add(uh)
+        stats.evaluations += n
+    else:
+        stats.evaluations += 1
+        stats.distinct.add(h)
+        if nontrivial:
+            stats.nontrivial.add(h)
     stats.labels.update(labels)
+    notes = getattr(prop, "NOTES", None)
+    if notes:
+        stats.labels.update(notes)
+        notes.clear()
     if len(stats.samples) < MAX_SAMPLES and (nontrivial or stats.evaluations > 20):
         if stats.evaluations % 7 == 1 or len(stats.samples) == 0:
             stats.samples.append(abbreviate(case))
@@ -217,7 +233,8 @@ def run_plan(pid, tier, seed_value, shard=(0, 1), budget_s=None):
             else:
                 stats.exhaustive = False
         stats.stage_info.append(
-            {"stage": stage["name"], "kind": stage["kind"], "shard": index, "evaluations": stats.evaluations - s0}
+            {"stage": stage["name"], "kind": stage["kind"], "shard": index, "evaluations": stats.evaluations - s0,
+             "exhaustive": bool(stage.get("exhaustive")) and stage["kind"] == "enum" and stats.skipped_budget == 0}
         )
     return stats
 
@@ -310,9 +327,10 @@ def merge_stage_info(infos):
     merged = collections.OrderedDict()
     for i in infos:
         key = (i["stage"], i["kind"])
-        merged.setdefault(key, 0)
-        merged[key] += i["evaluations"]
-    return [{"stage": k[0], "kind": k[1], "evaluations": v} for k, v in merged.items()]
+        m = merged.setdefault(key, {"evaluations": 0, "exhaustive": True})
+        m["evaluations"] += i["evaluations"]
+        m["exhaustive"] = m["exhaustive"] and i.get("exhaustive", False)
+    return [{"stage": k[0], "kind": k[1], **v} for k, v in merged.items()]
 
 
 def replay(pid, path):
@@ -371,7 +389,7 @@ def main(argv=None):
     )
     if replays:
         for bucket, path, best in replays:
-            d = best["discs"][0]
+            d = next((x for x in best["discs"] if bucket_of(x) == bucket), best["discs"][0])
             print(f"  root cause {bucket}: expected {d['expected']} observed {d['observed']}")
             print(f"VIOLATION property={pid} replay={path}")
         return 1
